@@ -1166,3 +1166,67 @@ func ruleKEY10(c *Ctx) []Ob {
 	}
 	return o.list
 }
+
+// ---------------------------------------------------------------- KEY11
+
+// KEY11: the key of a time orders like the time for every time from 1970 on.
+// (time.Time).UnixNano is defined only for instants between 1678 and 2262 (an
+// int64 count of nanoseconds); converted to uint64 its wrap-around happens to
+// keep the order up to 2554-07-21, and from there on the keys of later times
+// sort before the keys of earlier ones. A key derived from UnixNano is
+// therefore reported. (Seconds and nanoseconds encoded as two items would
+// cover the whole range, but change the layout of existing indexes.)
+func ruleKEY11(c *Ctx) []Ob {
+	o := newObs(c, "KEY11")
+	n := 0
+	for _, fn := range c.LibFuncs {
+		if c.pkgRel(fn) != "internal" && c.pkgRel(fn) != "index" {
+			continue
+		}
+		allCalls(fn, func(ci ssa.CallInstruction) {
+			if calleeFullName(ci) != "(time.Time).UnixNano" {
+				return
+			}
+			call, ok := ci.(*ssa.Call)
+			if !ok {
+				return
+			}
+			// does the value reach the function's result (the value handed to the encoder)?
+			reaches := false
+			seen := map[ssa.Value]bool{}
+			var fwd func(v ssa.Value)
+			fwd = func(v ssa.Value) {
+				if seen[v] {
+					return
+				}
+				seen[v] = true
+				for _, r := range realReferrers(v) {
+					switch x := r.(type) {
+					case *ssa.Return:
+						reaches = true
+					case *ssa.Convert:
+						fwd(x)
+					case *ssa.MakeInterface:
+						fwd(x)
+					case *ssa.Phi:
+						fwd(x)
+					case *ssa.Call:
+						if g := staticCallee(x); g != nil && g.Pkg != nil && g.Pkg.Pkg.Path() == "github.com/google/orderedcode" {
+							reaches = true
+						}
+					}
+				}
+			}
+			fwd(call)
+			if !reaches {
+				return
+			}
+			n++
+			o.add(VIOLATED, c.fname(fn)+"/time key from UnixNano", relPath(c, call.Pos()), "the key of a time is uint64(t.UnixNano()): UnixNano overflows int64 after 2262 and the uint64 wraps after 2554-07-21, so the key of 2600-01-01 sorts before the key of 2020-01-01 while Compare orders them correctly - an index range scan and the filter disagree for such times (Count(f > 2020) is 1 without the index, 0 with it)")
+		})
+	}
+	if n == 0 {
+		o.add(OK, "time keys", "-", "no index key is derived from (time.Time).UnixNano")
+	}
+	return o.list
+}
